@@ -1,5 +1,9 @@
 import ArimModel.Fermat
+import ArimModel.FermatCache
 import Mathlib.Order.Basic
+import Mathlib.Data.List.Basic
+import Mathlib.Data.List.Forall2
+import Mathlib.Algebra.Group.Defs
 import Mathlib.Order.Defs.LinearOrder
 import Mathlib.Algebra.Order.Monoid.Unbundled.Basic
 /-! Helper lemmas for C01 (min-plus scan and the split_queue recursion). -/
@@ -22,6 +26,7 @@ def allPos : List (Leg α) → Prop
   | [] => True
   | l :: prev => 0 < l.m ∧ allPos prev
 
+omit [Add α] in
 theorem scanMinR_succ (f : Nat → Res α) (m : Nat) :
     scanMinR f (m+1) = (match f m with
       | none => scanMinR f m
@@ -35,6 +40,7 @@ theorem scanMinR_succ (f : Nat → Res α) (m : Nat) :
   | none => rfl
   | some p => rfl
 
+omit [Add α] in
 /-- spec of the scan when every candidate is defined -/
 theorem scanMinR_spec (f : Nat → Res α) (m : Nat) (hm : 0 < m)
     (hf : ∀ k, k < m → ∃ v ks, f k = some (v, ks)) :
@@ -65,4 +71,419 @@ theorem scanMinR_spec (f : Nat → Res α) (m : Nat) (hm : 0 < m)
         rcases Nat.lt_succ_iff_lt_or_eq.mp hk' with h | h
         · exact hle k' v' ks' h hfk'
         · subst h; rw [hfm] at hfk'; cases hfk'; exact not_lt.mp hc
+end Arim
+
+/-! ## Structure of the scan result (no order laws needed) -/
+namespace Arim
+section Struct
+variable {β : Type} [LT β] [DecidableLT β]
+
+theorem scanMinR_succ' (f : Nat → Res β) (m : Nat) :
+    scanMinR f (m+1) = (match f m with
+      | none => scanMinR f m
+      | some (v, ks) => match scanMinR f m with
+        | none => some (v, ks ++ [m])
+        | some (b, kb) => if v < b then some (v, ks ++ [m]) else some (b, kb)) := by
+  unfold scanMinR
+  rw [List.range_succ, List.foldl_append]
+  simp only [List.foldl_cons, List.foldl_nil]
+  cases f m with
+  | none => rfl
+  | some p => rfl
+
+/-- whatever the scan returns is a candidate, extended by its own index -/
+theorem scanMinR_some (f : Nat → Res β) (m : Nat) (v : β) (r : List Nat)
+    (h : scanMinR f m = some (v, r)) :
+    ∃ k ks, k < m ∧ r = ks ++ [k] ∧ f k = some (v, ks) := by
+  induction m generalizing v r with
+  | zero => simp [scanMinR] at h
+  | succ m ih =>
+    rw [scanMinR_succ'] at h
+    cases hfm : f m with
+    | none =>
+      rw [hfm] at h
+      obtain ⟨k, ks, hk, hr, hf⟩ := ih v r h
+      exact ⟨k, ks, by omega, hr, hf⟩
+    | some p =>
+      obtain ⟨vm, ksm⟩ := p
+      rw [hfm] at h
+      cases hs : scanMinR f m with
+      | none =>
+        rw [hs] at h
+        simp only [Option.some.injEq, Prod.mk.injEq] at h
+        exact ⟨m, ksm, by omega, h.2.symm, by rw [hfm, h.1]⟩
+      | some q =>
+        obtain ⟨b, kb⟩ := q
+        rw [hs] at h
+        by_cases hc : vm < b
+        · simp only [hc, if_true, Option.some.injEq, Prod.mk.injEq] at h
+          exact ⟨m, ksm, by omega, h.2.symm, by rw [hfm, h.1]⟩
+        · simp only [hc, if_false, Option.some.injEq, Prod.mk.injEq] at h
+          obtain ⟨k, ks, hk, hr, hf⟩ := ih b kb hs
+          exact ⟨k, ks, by omega, by rw [← h.2]; exact hr, by rw [← h.1]; exact hf⟩
+
+variable [Add β]
+
+/-- unfolding of one step of the solver, with the chosen last interior point exposed -/
+theorem solveR_cons_some (first : Nat → Nat → β) (l : Leg β) (prev : List (Leg β)) (i j : Nat)
+    (v : β) (r : List Nat) (h : solveR first (l :: prev) i j = some (v, r)) :
+    ∃ k ks v', k < l.m ∧ r = ks ++ [k] ∧ solveR first prev i k = some (v', ks) ∧
+      v = v' + l.t k j := by
+  simp only [solveR] at h
+  obtain ⟨k, ks, hk, hr, hf⟩ := scanMinR_some _ _ _ _ h
+  cases hp : solveR first prev i k with
+  | none => simp [hp] at hf
+  | some p =>
+    obtain ⟨v', ks'⟩ := p
+    simp only [hp, Option.map_some, Option.some.injEq, Prod.mk.injEq] at hf
+    exact ⟨k, ks, v', hk, hr, by rw [← hf.2, hp], hf.1.symm⟩
+
+end Struct
+
+/-! ## The memoising solver -/
+section CacheL
+variable {β : Type}
+
+/-- keys of the dict -/
+def keysOf (c : Cache β) : List PKey := c.map (·.1)
+
+/-- every stored key has all its prefixes of length ≥ 2 stored too -/
+def PrefixClosed (keys : List PKey) : Prop :=
+  ∀ q, q ∈ keys → ∀ p, p <+: q → 2 ≤ p.length → p ∈ keys
+
+theorem lookup_some_mem (c : Cache β) (k : PKey) (t : Tbl β) (h : c.lookup k = some t) :
+    (k, t) ∈ c := by
+  induction c with
+  | nil => simp at h
+  | cons e c ih =>
+    obtain ⟨k', t'⟩ := e
+    by_cases hk : k = k'
+    · subst hk; simp at h; simp [h]
+    · have : (k == k') = false := by simpa using hk
+      simp [List.lookup, this] at h
+      exact List.mem_cons_of_mem _ (ih h)
+
+theorem lookup_none_iff (c : Cache β) (k : PKey) : c.lookup k = none ↔ k ∉ keysOf c := by
+  induction c with
+  | nil => simp [keysOf]
+  | cons e c ih =>
+    obtain ⟨k', t'⟩ := e
+    by_cases hk : k = k'
+    · subst hk; simp [keysOf]
+    · have : (k == k') = false := by simpa using hk
+      simp [List.lookup, this, keysOf, hk] 
+      simpa [keysOf] using ih
+
+variable [LT β] [DecidableLT β] [Add β]
+
+/-- the cache invariant: every stored table is the table of its key solved alone -/
+def CacheInv (legOf : Nat → Leg β) (c : Cache β) : Prop :=
+  ∀ k tbl, (k, tbl) ∈ c → tbl = solvePure legOf k
+
+theorem solvePure_snoc (legOf : Nat → Leg β) (K : PKey) (hK : K ≠ []) (l : Nat) :
+    solvePure legOf (K ++ [l]) = extendTbl (solvePure legOf K) (legOf l) := by
+  cases K with
+  | nil => exact absurd rfl hK
+  | cons l0 rest =>
+    funext i j
+    simp [solvePure, extendTbl, solveR]
+
+theorem solveCR_spec (legOf : Nat → Leg β) (rk : List Nat) (c : Cache β)
+    (hc : CacheInv legOf c) :
+    (solveCR legOf rk c).1 = solvePure legOf rk.reverse ∧ CacheInv legOf (solveCR legOf rk c).2 := by
+  induction rk generalizing c with
+  | nil => exact ⟨rfl, hc⟩
+  | cons l tl ih =>
+    cases tl with
+    | nil =>
+      simp only [solveCR]
+      cases hl : c.lookup [l] with
+      | none => exact ⟨rfl, hc⟩
+      | some t => exact ⟨hc _ _ (lookup_some_mem c _ t hl), hc⟩
+    | cons l' prev =>
+      simp only [solveCR]
+      cases hl : c.lookup (l :: l' :: prev).reverse with
+      | some t => exact ⟨hc _ _ (lookup_some_mem c _ t hl), hc⟩
+      | none =>
+        obtain ⟨h1, h2⟩ := ih c hc
+        have hne : (l' :: prev).reverse ≠ [] := by simp
+        have htbl : extendTbl (solveCR legOf (l' :: prev) c).1 (legOf l) =
+            solvePure legOf (l :: l' :: prev).reverse := by
+          rw [List.reverse_cons (a := l), solvePure_snoc legOf _ hne, h1]
+        refine ⟨htbl, ?_⟩
+        intro k tbl hmem
+        rcases List.mem_cons.mp hmem with h | h
+        · injection h with hk ht
+          rw [ht, hk]; exact htbl
+        · exact h2 k tbl h
+
+/-- the keys `_solve` stores for the reversed key `rk`, given the keys already present
+    (newest first): the recursion stops at the first cached prefix. -/
+def newKeysR (keys : List PKey) : List Nat → List PKey
+  | [] => []
+  | [_] => []
+  | l :: l' :: prev =>
+    if (l :: l' :: prev).reverse ∈ keys then [] else
+      (l :: l' :: prev).reverse :: newKeysR keys (l' :: prev)
+
+omit [LT β] [DecidableLT β] [Add β] in
+theorem mem_newKeysR (keys : List PKey) (rk : List Nat) (p : PKey) :
+    p ∈ newKeysR keys rk ↔
+      (p <+: rk.reverse ∧ 2 ≤ p.length ∧ ∀ q, p <+: q → q <+: rk.reverse → q ∉ keys) := by
+  induction rk with
+  | nil =>
+    simp only [newKeysR, List.not_mem_nil, List.reverse_nil, List.prefix_nil, false_iff]
+    rintro ⟨h, h2, _⟩; subst h; simp at h2
+  | cons l tl ih =>
+    cases tl with
+    | nil =>
+      simp only [newKeysR, List.not_mem_nil, false_iff]
+      rintro ⟨h, h2, _⟩
+      have := h.length_le; simp at this; omega
+    | cons l' prev =>
+      have hrev : (l :: l' :: prev).reverse = (l' :: prev).reverse ++ [l] := List.reverse_cons
+      simp only [newKeysR]
+      by_cases hin : (l :: l' :: prev).reverse ∈ keys
+      · simp only [hin, if_true, List.not_mem_nil, false_iff]
+        rintro ⟨h, _, h3⟩
+        exact h3 _ h (List.prefix_refl _) hin
+      · simp only [hin, if_false, List.mem_cons, ih]
+        rw [hrev] at hin ⊢
+        constructor
+        · rintro (h | ⟨h1, h2, h3⟩)
+          · subst h
+            refine ⟨List.prefix_refl _, by simp, ?_⟩
+            intro q hq1 hq2
+            rw [List.IsPrefix.eq_of_length_le hq2 hq1.length_le]
+            exact hin
+          · refine ⟨h1.trans (List.prefix_append _ _), h2, ?_⟩
+            intro q hq1 hq2
+            rcases List.prefix_concat_iff.mp hq2 with h | h
+            · rw [h]; exact hin
+            · exact h3 q hq1 h
+        · rintro ⟨h1, h2, h3⟩
+          rcases List.prefix_concat_iff.mp h1 with h | h
+          · exact Or.inl h
+          · exact Or.inr ⟨h, h2, fun q hq1 hq2 => h3 q hq1 (hq2.trans (List.prefix_append _ _))⟩
+
+theorem solveCR_keys (legOf : Nat → Leg β) (rk : List Nat) (c : Cache β) :
+    ∃ added, (solveCR legOf rk c).2 = added ++ c ∧ keysOf added = newKeysR (keysOf c) rk := by
+  induction rk generalizing c with
+  | nil => exact ⟨[], rfl, rfl⟩
+  | cons l tl ih =>
+    cases tl with
+    | nil =>
+      simp only [solveCR]
+      cases hl : c.lookup [l] <;> exact ⟨[], rfl, rfl⟩
+    | cons l' prev =>
+      simp only [solveCR]
+      cases hl : c.lookup (l :: l' :: prev).reverse with
+      | some t =>
+        have : (l :: l' :: prev).reverse ∈ keysOf c := by
+          by_contra h
+          rw [(lookup_none_iff c _).mpr h] at hl; cases hl
+        exact ⟨[], rfl, by simp only [newKeysR, this, if_true]; rfl⟩
+      | none =>
+        have hnot := (lookup_none_iff c _).mp hl
+        obtain ⟨added, h1, h2⟩ := ih c
+        refine ⟨(_, _) :: added, by rw [h1]; rfl, ?_⟩
+        simp only [newKeysR, hnot, if_false]
+        simp only [keysOf, List.map_cons] at h2 ⊢
+        rw [h2]
+
+omit [LT β] [DecidableLT β] [Add β] in
+theorem newKeysR_nodup (keys : List PKey) (rk : List Nat) : (newKeysR keys rk).Nodup := by
+  induction rk with
+  | nil => simp [newKeysR]
+  | cons l tl ih =>
+    cases tl with
+    | nil => simp [newKeysR]
+    | cons l' prev =>
+      simp only [newKeysR]
+      split
+      · exact List.nodup_nil
+      · refine List.nodup_cons.mpr ⟨?_, ih⟩
+        intro hmem
+        have h := ((mem_newKeysR keys (l' :: prev) _).mp hmem).1.length_le
+        simp at h
+
+theorem solveCR_nodup (legOf : Nat → Leg β)
+    (rk : List Nat) (c : Cache β) (hn : (keysOf c).Nodup) :
+    (keysOf (solveCR legOf rk c).2).Nodup := by
+  obtain ⟨added, h1, h2⟩ := solveCR_keys legOf rk c
+  rw [h1]
+  have : keysOf (added ++ c) = keysOf added ++ keysOf c := by simp [keysOf]
+  rw [this, h2, List.nodup_append]
+  refine ⟨newKeysR_nodup _ _, hn, ?_⟩
+  intro a ha b hb hab
+  subst hab
+  exact ((mem_newKeysR _ _ _).mp ha).2.2 a (List.prefix_refl _) ((mem_newKeysR _ _ _).mp ha).1 hb
+end CacheL
+
+/-! ## Reversed paths -/
+section Rev
+variable {β : Type}
+
+/-- first table of the reversed path (in `solveR` form): the transposed LAST table -/
+def bfirst : (Nat → Nat → β) → List (Nat → Nat → β) → (Nat → Nat → β)
+  | t0, [] => transpose t0
+  | _, t1 :: rest => bfirst t1 rest
+
+/-- legs of the reversed path, last leg first: `⟨m₁, t₀ᵀ⟩, ⟨m₂, t₁ᵀ⟩, …` -/
+def blegs : (Nat → Nat → β) → List (Nat → Nat → β) → List Nat → List (Leg β)
+  | t0, t1 :: rest, m1 :: ms => { m := m1, t := transpose t0 } :: blegs t1 rest ms
+  | _, _, _ => []
+
+theorem legsP_snoc (ts : List (Nat → Nat → β)) (ms : List Nat) (t : Nat → Nat → β) (m : Nat)
+    (h : ts.length = ms.length) :
+    legsP (ts ++ [t]) (ms ++ [m]) = legsP ts ms ++ [{ m := m, t := t }] := by
+  induction ts generalizing ms with
+  | nil => cases ms with
+    | nil => rfl
+    | cons a b => simp at h
+  | cons x xs ih => cases ms with
+    | nil => simp at h
+    | cons a b =>
+      simp only [List.length_cons, Nat.add_right_cancel_iff] at h
+      simp [legsP, ih b h]
+
+theorem toR?_snoc (xs : List (Nat → Nat → β)) (ns : List Nat) (t : Nat → Nat → β) (m : Nat)
+    (f : Nat → Nat → β) (L : List (Leg β)) (h : toR? xs ns = some (f, L))
+    (hl : xs.length = ns.length + 1) :
+    toR? (xs ++ [t]) (ns ++ [m]) = some (f, { m := m, t := t } :: L) := by
+  cases xs with
+  | nil => simp at hl
+  | cons x xs' =>
+    simp only [List.length_cons, Nat.add_right_cancel_iff] at hl
+    simp only [toR?, Option.some.injEq, Prod.mk.injEq] at h
+    simp only [List.cons_append, toR?, legsP_snoc xs' ns t m hl, List.reverse_append,
+      List.reverse_cons, List.reverse_nil, List.nil_append, List.cons_append]
+    rw [h.1, h.2]
+
+theorem toR?_revPath (t0 : Nat → Nat → β) (rest : List (Nat → Nat → β)) (ms : List Nat)
+    (h : rest.length = ms.length) :
+    toR? (revPath (t0 :: rest) ms).1 (revPath (t0 :: rest) ms).2 =
+      some (bfirst t0 rest, blegs t0 rest ms) := by
+  induction rest generalizing t0 ms with
+  | nil => cases ms with
+    | nil => simp [revPath, toR?, legsP, bfirst, blegs]
+    | cons a b => simp at h
+  | cons t1 rest' ih => cases ms with
+    | nil => simp at h
+    | cons m1 ms' =>
+      simp only [List.length_cons, Nat.add_right_cancel_iff] at h
+      have := ih t1 ms' h
+      simp only [revPath] at this ⊢
+      rw [List.reverse_cons (a := t0), List.map_append, List.reverse_cons (a := m1)]
+      exact toR?_snoc _ _ _ _ _ _ this (by simp [h])
+
+theorem sizes_legsP (rest : List (Nat → Nat → β)) (ms : List Nat) (h : rest.length = ms.length) :
+    (legsP rest ms).map (·.m) = ms := by
+  induction rest generalizing ms with
+  | nil => cases ms with
+    | nil => rfl
+    | cons a b => simp at h
+  | cons x xs ih => cases ms with
+    | nil => simp at h
+    | cons a b =>
+      simp only [List.length_cons, Nat.add_right_cancel_iff] at h
+      simp [legsP, ih b h]
+
+theorem sizes_blegs (t0 : Nat → Nat → β) (rest : List (Nat → Nat → β)) (ms : List Nat)
+    (h : rest.length = ms.length) : (blegs t0 rest ms).map (·.m) = ms := by
+  induction rest generalizing t0 ms with
+  | nil => cases ms with
+    | nil => rfl
+    | cons a b => simp at h
+  | cons x xs ih => cases ms with
+    | nil => simp at h
+    | cons a b =>
+      simp only [List.length_cons, Nat.add_right_cancel_iff] at h
+      simp [blegs, ih x b h]
+
+theorem validR_iff (L : List (Leg β)) (K : List Nat) :
+    validR L K ↔ List.Forall₂ (fun m k => k < m) (L.map (·.m)) K := by
+  induction L generalizing K with
+  | nil => cases K <;> simp [validR]
+  | cons l L ih => cases K with
+    | nil => simp [validR]
+    | cons k K => simp [validR, ih K]
+
+theorem allPos_iff (L : List (Leg β)) : allPos L ↔ ∀ m, m ∈ L.map (·.m) → 0 < m := by
+  induction L with
+  | nil => simp [allPos]
+  | cons l L ih => simp [allPos, ih]
+
+/-- validity of a tuple given in PATH order against the interior sizes in path order -/
+def validP (ms ks : List Nat) : Prop := List.Forall₂ (fun m k => k < m) ms ks
+
+theorem validR_length (L : List (Leg β)) (K : List Nat) (h : validR L K) : K.length = L.length := by
+  have := ((validR_iff L K).mp h).length_eq
+  simpa using this.symm
+
+variable [Add β]
+
+theorem costR_snoc (t0 t1 : Nat → Nat → β) (m1 : Nat) (L : List (Leg β)) (i k1 : Nat)
+    (K : List Nat) (j : Nat) (hlen : L.length = K.length)
+    (hassoc : ∀ a b c : β, a + b + c = a + (b + c)) :
+    costR t0 (L ++ [{ m := m1, t := t1 }]) i (K ++ [k1]) j =
+      (costR t1 L k1 K j).map (t0 i k1 + ·) := by
+  induction L generalizing K j with
+  | nil => cases K with
+    | nil => simp [costR]
+    | cons a b => simp at hlen
+  | cons l L ih => cases K with
+    | nil => simp at hlen
+    | cons k K =>
+      simp only [List.length_cons, Nat.add_right_cancel_iff] at hlen
+      simp only [List.cons_append, costR, ih K k hlen, Option.map_map]
+      congr 1
+      funext x
+      exact hassoc _ _ _
+
+/-- the cost of a tuple along the reversed path equals its cost along the path -/
+theorem costR_rev (hassoc : ∀ a b c : β, a + b + c = a + (b + c)) (hcomm : ∀ a b : β, a + b = b + a)
+    (t0 : Nat → Nat → β) (rest : List (Nat → Nat → β)) (ms : List Nat) (i j : Nat)
+    (ks : List Nat) (h : rest.length = ms.length) (hk : ks.length = ms.length) :
+    costR (bfirst t0 rest) (blegs t0 rest ms) j ks i =
+      costR t0 (legsP rest ms).reverse i ks.reverse j := by
+  induction rest generalizing t0 ms ks i with
+  | nil => cases ms with
+    | nil => cases ks with
+      | nil => simp [costR, bfirst, blegs, legsP, transpose]
+      | cons a b => simp at hk
+    | cons a b => simp at h
+  | cons t1 rest' ih => cases ms with
+    | nil => simp at h
+    | cons m1 ms' => cases ks with
+      | nil => simp at hk
+      | cons k1 ks' =>
+        simp only [List.length_cons, Nat.add_right_cancel_iff] at h hk
+        simp only [bfirst, blegs, legsP, costR, List.reverse_cons]
+        rw [ih t1 ms' k1 ks' h hk, costR_snoc _ _ _ _ _ _ _ _ ?_ hassoc]
+        · congr 1
+          funext x
+          exact hcomm _ _
+        · have := congrArg List.length (sizes_legsP rest' ms' h)
+          simp at this
+          simp [this, hk]
+
+omit [Add β] in
+theorem validR_rev (t0 : Nat → Nat → β) (rest : List (Nat → Nat → β)) (ms : List Nat)
+    (ks : List Nat) (h : rest.length = ms.length) :
+    validR (blegs t0 rest ms) ks ↔ validR (legsP rest ms).reverse ks.reverse := by
+  rw [validR_iff, validR_iff, sizes_blegs t0 rest ms h, List.map_reverse, sizes_legsP rest ms h,
+    List.forall₂_reverse_iff]
+
+omit [Add β] in
+theorem allPos_legsP (rest : List (Nat → Nat → β)) (ms : List Nat) (h : rest.length = ms.length)
+    (hpos : ∀ m, m ∈ ms → 0 < m) : allPos (legsP rest ms).reverse := by
+  rw [allPos_iff, List.map_reverse, sizes_legsP rest ms h]
+  intro m hm; exact hpos m (List.mem_reverse.mp hm)
+
+omit [Add β] in
+theorem allPos_blegs (t0 : Nat → Nat → β) (rest : List (Nat → Nat → β)) (ms : List Nat)
+    (h : rest.length = ms.length) (hpos : ∀ m, m ∈ ms → 0 < m) : allPos (blegs t0 rest ms) := by
+  rw [allPos_iff, sizes_blegs t0 rest ms h]; exact hpos
+end Rev
 end Arim
